@@ -53,7 +53,7 @@ def instances_of(cfg, res):
 def c02_module(name, dfa, rs, ncls, leaves):
     rs_t = clist(['(%d, %s)' % (t, ast_term(a, leaves)) for t, a in rs])
     s = 'Module %s.\n' % name
-    s += 'Definition A : dfa := %s.\n' % dfa_term(dfa)
+    s += 'Definition A : dfa := Eval vm_compute in %s.\n' % dfa_term(dfa)
     s += 'Definition rs : list (N * re) := Eval vm_compute in match mk_rs %s with Some l => l | None => [] end.\n' % rs_t
     # each fact is evaluated once, by the kernel's VM at Qed (vm_cast_no_check does not compute)
     s += 'Lemma check1 : equiv_check tbll tblc A ms rs (%s) = true.\nProof. vm_cast_no_check (eq_refl true). Qed.\n' % FUEL
@@ -66,7 +66,7 @@ def c02_module(name, dfa, rs, ncls, leaves):
           'split; [exact check1|]. split; [exact H1|]. split; [exact H2|]. split; [exact H3|exact H4]. Qed.\n')
     s += ('Theorem inst : forall w, w <> [] -> Forall (fun c => In c ms) w -> forall t,\n'
           '  accepts_tok tblc A w t <-> exists r, In (t,r) rs /\\ mt tbll r w.\n')
-    s += 'Proof. apply (equiv_check_sound tbll tblc A ms rs (%s)). apply checks. Qed.\n' % FUEL
+    s += 'Proof. apply (equiv_check_sound tbll tblc A ms rs (%s)). exact check1. Qed.\n' % FUEL
     s += 'Theorem empty_word : forall t, ~ accepts_tok tblc A [] t.\n'
     s += 'Proof. intros t (q & Hq & Ha). cbn in Hq. destruct Hq as [<-|[]]. vm_compute in Ha. discriminate. Qed.\n'
     s += 'End %s.\n' % name
@@ -76,7 +76,7 @@ def c02_module(name, dfa, rs, ncls, leaves):
 def c02_diag(name, dfa, rs, ncls, leaves):
     rs_t = clist(['(%d, %s)' % (t, ast_term(a, leaves)) for t, a in rs])
     s = 'Module %s.\n' % name
-    s += 'Definition A : dfa := %s.\n' % dfa_term(dfa)
+    s += 'Definition A : dfa := Eval vm_compute in %s.\n' % dfa_term(dfa)
     s += 'Definition rs : list (N * re) := Eval vm_compute in match mk_rs %s with Some l => l | None => [] end.\n' % rs_t
     s += ('Eval vm_compute in ([if equiv_check tbll tblc A ms rs (%s) then 1 else 0; if start_not_accepting A then 1 else 0; '
           'if wf_dfa %d A then 1 else 0; if dfa_okb A then 1 else 0; N.of_nat (length rs)],\n'
@@ -87,7 +87,7 @@ def c02_diag(name, dfa, rs, ncls, leaves):
 
 def pair_module(name, a, b, diag=False):
     s = 'Module %s.\n' % name
-    s += 'Definition A : dfa := %s.\nDefinition B : dfa := %s.\n' % (dfa_term(a), dfa_term(b))
+    s += 'Definition A : dfa := Eval vm_compute in %s.\nDefinition B : dfa := Eval vm_compute in %s.\n' % (dfa_term(a), dfa_term(b))
     if diag:
         s += ('Eval vm_compute in ([if aut_equiv_check tblc A B ms (%s) then 1 else 0; '
               'if Nat.leb (length (trans B)) (length (trans A)) then 1 else 0],\n'
@@ -98,7 +98,7 @@ def pair_module(name, a, b, diag=False):
               'Nat.eqb (length (trans B)) (length (fin B)) = true.\n' % FUEL)
         s += 'Proof. split; [exact check1|]. split; vm_cast_no_check (eq_refl true). Qed.\n'
         s += ('Theorem inst : forall w, Forall (fun c => In c ms) w -> forall t, accepts_tok tblc A w t <-> accepts_tok tblc B w t.\n'
-              'Proof. apply (aut_equiv_check_sound (fun _ _ => false) tblc A B ms (%s)). apply checks. Qed.\n' % FUEL)
+              'Proof. apply (aut_equiv_check_sound (fun _ _ => false) tblc A B ms (%s)). exact check1. Qed.\n' % FUEL)
     s += 'End %s.\n' % name
     return s
 
